@@ -299,7 +299,7 @@ where
 /// `(CreateIfNeeded(..), SeedsWithBump { seeds, bump })` on an account that ALREADY EXISTS (program-owned, initialised):
 /// nothing is created, no CPI is signed, so the framework itself has to compare the key with the derived address
 /// (`Seeded` can only be initialised with `CurrentProgram` as the seed program: seeded.rs 308)
-fn candidate_init<S>(s: &S, key: [u8; 32], bump: u8, ctx_pid: &'static Pubkey, spid: &Pubkey, out: &mut Vec<i128>)
+fn candidate_init<S>(s: &S, key: [u8; 32], find: bool, bump: u8, ctx_pid: &'static Pubkey, spid: &Pubkey, out: &mut Vec<i128>)
 where
     S: Fam,
 {
@@ -314,11 +314,16 @@ where
         let funder = <Mut<Signer>>::try_from_account(&finfo, &mut ctx)?;
         let mut accs: &[AccountInfo] = std::slice::from_ref(&info);
         let mut set = <Init<Seeded<Account<V10>, S, P>> as AccountSetDecode<'_, ()>>::decode_accounts(&mut accs, (), &mut ctx)?;
-        AccountSetValidate::validate_accounts(
-            &mut set,
-            (CreateIfNeeded((|| DefaultInit, &funder)), SeedsWithBump { seeds: s.clone(), bump }),
-            &mut ctx,
-        )?;
+        if find {
+            // mode 3: the canonical-bump search (`Seeds`) through the same Init path
+            AccountSetValidate::validate_accounts(&mut set, (CreateIfNeeded((|| DefaultInit, &funder)), Seeds(s.clone())), &mut ctx)?;
+        } else {
+            AccountSetValidate::validate_accounts(
+                &mut set,
+                (CreateIfNeeded((|| DefaultInit, &funder)), SeedsWithBump { seeds: s.clone(), bump }),
+                &mut ctx,
+            )?;
+        }
         let mut o = vec![0];
         let rec = set.access_seeds().bump;
         o.push(rec as i128);
@@ -405,8 +410,8 @@ fn run<S: Fam>(c: &[i128]) -> Vec<i128> {
     for _ in 0..nc {
         let Some(key) = key32(&mut cur) else { return bad };
         let (Some(mode), Some(bump)) = (cur.next(), cur.next()) else { return bad };
-        if mode == 2 && pmode == 0 {
-            candidate_init::<S>(&s, key, bump as u8, ctx_pid, &spid, &mut out);
+        if (mode == 2 || mode == 3) && pmode == 0 {
+            candidate_init::<S>(&s, key, mode == 3, bump as u8, ctx_pid, &spid, &mut out);
         } else if pmode != 0 {
             candidate::<S, HProg, ViaAccess>(&s, key, mode, bump as u8, ctx_pid, &spid, cls, &mut out);
         } else {
